@@ -42,17 +42,21 @@ def acceptance(ck, cmd, n):
             ck.samples.append({"wgsl": unq(s[1:-1])[:1500], "result": a})
         if a == "ok":
             continue
-        cls = re.sub(r"[0-9]", "N", a.strip().split(";")[0].strip())
-        if cls in reported:
-            continue
-        reported.add(cls)
-        fid = None
-        for k in ck.known:
-            if re.search(k.get("match", {}).get("error_class_regex", "$^"), cls):
-                fid = k["id"]
-        ck.violation({"kind": "valid-program-rejected", "finding": fid, "error_class": cls, "result": a,
-                      "wgsl_shrunk": shrunk.get(cls), "wgsl": unq(s[1:-1]),
-                      "how": "a generated valid WGSL program is rejected by a stage/backend"}, found_input=True)
+        segs = [x.strip() for x in a.strip().split(";") if x.strip()]
+        # the first rejection, and (after a cause analysis by re-spelling) the first rejection of the re-spelled program
+        heads = [segs[0]] + [x[len("respelled "):] for x in segs[1:] if x.startswith("respelled ")][:1]
+        for head in heads:
+            cls = re.sub(r"[0-9]", "N", head)
+            if cls in reported:
+                continue
+            reported.add(cls)
+            fid = None
+            for k in ck.known:
+                if re.search(k.get("match", {}).get("error_class_regex", "$^"), cls):
+                    fid = k["id"]
+            ck.violation({"kind": "valid-program-rejected", "finding": fid, "error_class": cls, "result": a,
+                          "wgsl_shrunk": shrunk.get(cls), "wgsl": unq(s[1:-1]),
+                          "how": "a generated valid WGSL program is rejected by a stage/backend"}, found_input=True)
 
 
 def run(ck):
